@@ -122,7 +122,7 @@ def evKey (e : EvObs) : Nat := e.kind.idx * 1000000 + e.kind.arg
 
 def insertEv (e : EvObs) : List EvObs → List EvObs
   | [] => [e]
-  | x :: xs => if evKey e < evKey x then e :: x :: xs else x :: insertEv e xs
+  | x :: xs => if evKey e ≤ evKey x then e :: x :: xs else x :: insertEv e xs   -- `≤`: stable (equal keys keep invocation order)
 
 def sortEvs (l : List EvObs) : List EvObs := l.foldr insertEv []
 
